@@ -195,7 +195,8 @@ fn exhaustive_pairs(id: &'static str, t: &Tables) -> ScnResult {
                 for shape in 0..2 {
                     let (a, b) = (all[i], all[k]);
                     let entries = if shape == 0 {
-                        vec![(a, "a.sol".to_string(), vec![1]), (b, "a.sol".to_string(), vec![5])]
+                        // the very same entry text under both patterns
+                        vec![(a, "a.sol".to_string(), vec![5]), (b, "a.sol".to_string(), vec![5])]
                     } else {
                         vec![
                             (a, "b.sol".to_string(), vec![2, 3]),
